@@ -54,7 +54,8 @@ void harness(void)
 	for (k = 0; k < VF_N; k++) S[k] = k < IN.n ? ALPHA16[IN.s[k] & 15u] : '\0';
 	S[VF_N] = '\0'; slen = IN.n;
 	val = IN.is_null ? NULL : S;
-	U.flags = IN.flags; U.scheme = U.userinfo = U.host = U.unixsocket = U.path = U.query = U.fragment = NULL; U.port = 7;
+	/* a host set earlier may have been a bracketed IP literal: the internal flag can be set at entry */
+	U.flags = IN.flags | ((IN.preset & 2) ? _EVHTTP_URI_HOST_HAS_BRACKETS : 0); U.scheme = U.userinfo = U.host = U.unixsocket = U.path = U.query = U.fragment = NULL; U.port = 7;
 #ifdef VF_KF_EXCLUDE
 	__CPROVER_assume(!(IN.which == 6 && IN.port > 65535));
 #endif
